@@ -52,6 +52,8 @@ def run(tier, replay=None):
     if ck.coq_ok:
         mm["runtime"] = ck.coq_eval_cases(lines("cases_runtime.txt"), hdr, "int * mdata * list (str * list str) * list (str * list str) * bool * bool * list stage", "runtime_mismatches", tag="runtime")
     if ck.coq_ok:
+        mm["order"] = ck.coq_eval_cases(lines("cases_order.txt"), hdr, "int * list decl * skind", "order_mismatches", tag="order")
+    if ck.coq_ok:
         mm["history"] = ck.coq_eval_cases(lines("cases_history.txt"), hdr, "int * mdata * list (str * list str) * mdata * list (str * list str) * mdata", "history_mismatches", tag="history")
     if ck.coq_ok and tier == "thorough":
         hdrv = "From GRPC Require Import Model Values RunValues.\nOpen Scope Z_scope."
@@ -91,7 +93,7 @@ def run(tier, replay=None):
             ck.notes.append(k)
     cov = {"evaluations": res["evaluations"], "distinct_nontrivial": res["distinct_nontrivial"], "rule": res["rule"],
            "samples": res["samples"], "distribution": res["distribution"],
-           "model_cases": {s: len(lines("cases_%s.txt" % s)) for s in ("main", "names", "split", "reqmd", "witness", "runtime", "history", "values")},
+           "model_cases": {s: len(lines("cases_%s.txt" % s)) for s in ("main", "names", "split", "reqmd", "order", "witness", "runtime", "history", "values")},
            "model_mismatches": {s: (len(b) if b is not None else None) for s, b in mm.items()} if ck.coq_ok else None,
            "extra": res.get("extra", {}), "exhaustive": False,
            "partial": "protoc is absent: the protoc finaliser is dropped, the protobuf wire format is not exercised, tier B uses stand-in pb structs with protoc-gen-go's field naming"}
